@@ -21,10 +21,13 @@ def program_of(evs):
 
 def mc_and_run(ctx, family, cap, depth, kd):
     cfg = ctx.path(f"mc_{family}_{cap}.cfg")
+    # family "recap": the directory is reopened by a tracker of another capacity (every capacity 1..3 but the first one)
+    recaps = "{" + ", ".join(str(c) for c in (1, 2, 3) if c != cap) + "}" if family == "recap" else "{}"
     lib.write_cfg(cfg, {"Keys": "{a, b, c}" if family == "mem" else "{a, b}", "ZKeys": "{z}", "Cap": cap, "D": depth,
-                        "Family": f'"{family}"'},
+                        "Family": f'"{family}"', "ReCaps": recaps},
                   "MCInit", "MCNext", symmetry="Sym", constraints=["Constr"],
-                  invariants=["Bounded", "Distinct", "FilesFn", "TouchAll", "CapKept", "SaveLoadId", "Emit"])
+                  invariants=(["BoundedNow", "Distinct", "FilesFn", "TouchAllNow", "CapKeptNow", "SaveLoadNow", "Emit"] if family == "recap" else
+                              ["Bounded", "Distinct", "FilesFn", "TouchAll", "CapKept", "SaveLoadId", "Emit"]))
     progs = ctx.path(f"prog_{family}_{cap}.ndjson")
     r = lib.tlc(ctx, MODULE_MC, cfg, tagged_out={"PROGRAM": progs}, timeout=1500, coverage=False)
     ctx.cov["states"] += r["distinct"]
@@ -90,24 +93,26 @@ def impl_model(ctx):
     space (no depth bound) and checks that it refines the textbook operations of Lru.tla and never leaks a slot;
     the pinned (pre-fix) variants must be refuted (regenerates the F17a / F17b counterexamples, anti-vacuity)."""
     invs = ["TypeOK", "WalkTerminates", "WalkIsKeymap", "NoSlotLeaked", "FreeDisjoint"]
-    props = ["RefinesTouch", "RefinesRemove", "RefinesEvict", "RefinesLoad"]
+    props = ["RefinesTouch", "RefinesRemove", "RefinesEvict", "RefinesLoad", "RefinesReopen"]
     out = {}
-    for cap, variant, expect in [(1, "{}", False), (2, "{}", False), (3, "{}", False)] + ([] if ctx.quick else [(4, "{}", False)]) + \
-                                [(2, '{"evict_leaks"}', True), (2, '{"zero_is_empty"}', True)]:
+    ALLC = "{1, 2, 3}"     # the directory is reopened by trackers of every capacity 1..3
+    for cap, caps, variant, expect in [(1, "{}", "{}", False), (2, "{}", "{}", False), (3, "{}", "{}", False), (2, ALLC, "{}", False)] + \
+                                      ([] if ctx.quick else [(4, "{}", "{}", False), (3, "{1, 2, 3, 4}", "{}", False)]) + \
+                                      [(2, "{}", '{"evict_leaks"}', True), (2, "{}", '{"zero_is_empty"}', True), (2, ALLC, '{"load_adopts_size"}', True)]:
         cfg = ctx.path(f"lruimpl_{cap}_{len(out)}.cfg")
-        lib.write_cfg(cfg, {"Cap": cap, "Keys": '{"a", "b", "c", "z"}', "ZKey": '"z"', "Variant": variant}, None, None,
+        lib.write_cfg(cfg, {"Cap": cap, "Caps": caps, "Keys": '{"a", "b", "c", "z"}', "ZKey": '"z"', "Variant": variant}, None, None,
                       specification="Spec", invariants=invs, properties=props)
         r = lib.tlc(ctx, "LruImpl", cfg, timeout=1500, workers=min(lib.NCPU, 8), expect_violation=True)
         refuted = bool(r["invariant_violated"]) or r["property_violated"]
-        out[f"Cap={cap} Variant={variant}"] = {"distinct_states": r["distinct"], "refuted": refuted}
+        out[f"Cap={cap} Caps={caps} Variant={variant}"] = {"distinct_states": r["distinct"], "refuted": refuted}
         if not expect:
             ctx.cov["states"] += r["distinct"]
             ctx.cov["transitions"] += r["generated"]
         if refuted != expect:
-            raise lib.ToolError(f"LruImpl Cap={cap} Variant={variant}: refuted={refuted}, expected {expect} - the code-shaped model no longer "
+            raise lib.ToolError(f"LruImpl Cap={cap} Caps={caps} Variant={variant}: refuted={refuted}, expected {expect} - the code-shaped model no longer "
                                 "matches its specification (model or spec out of date)")
     ctx.cov["impl_model"] = out
-    ctx.stage("impl-model", **{k.replace(" ", "_"): v["distinct_states"] for k, v in out.items()})
+    ctx.stage("impl-model", **{k.replace(" ", "_").replace(",", ""): v["distinct_states"] for k, v in out.items()})
 
 
 def run(ctx):
@@ -116,12 +121,17 @@ def run(ctx):
     if ctx.replay:
         return replay(ctx, kd)
     if ctx.quick:
-        plan = [("mem", 1, 4), ("mem", 2, 5), ("mem", 3, 5), ("disk", 1, 4), ("disk", 2, 4)]
+        plan = [("mem", 1, 4), ("mem", 2, 5), ("mem", 3, 5), ("disk", 1, 4), ("disk", 2, 4), ("recap", 1, 5), ("recap", 2, 5)]
         nrand, rlen = 300, 200
     else:
-        plan = [("mem", 0, 4), ("mem", 1, 5), ("mem", 2, 6), ("mem", 3, 5), ("disk", 0, 4), ("disk", 1, 5), ("disk", 2, 5), ("disk", 3, 4)]
+        plan = [("mem", 0, 4), ("mem", 1, 5), ("mem", 2, 6), ("mem", 3, 5), ("disk", 0, 4), ("disk", 1, 5), ("disk", 2, 5), ("disk", 3, 4),
+                ("recap", 1, 7), ("recap", 2, 7), ("recap", 3, 6)]
         nrand, rlen = 3000, 300
-    impl_model(ctx)
+    if os.environ.get("VERIF_C17_ONLY") == "recap":      # development aid
+        plan = [p for p in plan if p[0] == "recap"]
+        nrand = 50
+    else:
+        impl_model(ctx)
     total_programs = 0
     distinct = 0
     first_trace = None
